@@ -85,6 +85,11 @@ $(BUILD)/nrf_sim.o: harness/nrf_sim.cpp harness/nrf_front.hpp sim/sim.hpp shim/n
 	@mkdir -p $(dir $@)
 	$(CXX) $(CXXFLAGS) $(SM_INCLUDES) -MMD -c $< -o $@
 
+# ---- pdu_sim: configurations 10..19 run the connection event half of the same front end
+$(BUILD)/pdu_sim.o: harness/pdu_sim.cpp harness/nrf_front.hpp sim/sim.hpp shim/nrf.h
+	@mkdir -p $(dir $@)
+	$(CXX) $(CXXFLAGS) $(SM_INCLUDES) -MMD -c $< -o $@
+
 clean:
 	rm -rf $(BUILD)
 
